@@ -66,7 +66,6 @@ package keeper
 //@   ensures 0 <= i && i < len(c) ==> amt(c, coinat(c, i).Denom) > 0 && cidx(c, coinat(c, i).Denom) == i
 //@ axiom coinsListD(c, d)
 //@   ensures amt(c, d) > 0 ==> 0 <= cidx(c, d) && cidx(c, d) < len(c) && coinat(c, cidx(c, d)).Denom == d
-//@   ensures amt(c, d) >= 0
 
 // Set writes exactly the listed denominations (it does not clear the others: callers that shrink a tally clear first)
 //@ func Keeper.SetEarnedFees
